@@ -1,6 +1,6 @@
 PROPERTY = "C12"
 LEVEL = "proof"
-LEAN_MODULES = ["CifModel.Props.C12", "CifModel.Lemmas.ParserTop", "CifModel.Props.C12Lex"]
+LEAN_MODULES = ["CifModel.Props.C12", "CifModel.Lemmas.ParserTop", "CifModel.Props.C12Lex", "CifModel.Props.C12Scan"]
 REQUIRED = ["CifModel.C12_clean", "CifModel.C12_first_report_is_policy_free", "CifModel.C12_missing_value_instance",
             "CifModel.C12_unexpected_value_instance", "CifModel.C12_dup_scalar_instance", "CifModel.C12_dup_loop_header_instance",
             "CifModel.C12_partial_packet_instance", "CifModel.C12_empty_and_null_loop_instance", "CifModel.C12_no_block_header_instance",
@@ -15,7 +15,14 @@ REQUIRED = ["CifModel.C12_clean", "CifModel.C12_first_report_is_policy_free", "C
             "CifModel.C12_no_frame_term", "CifModel.C12_frame_nesting_depth", "CifModel.C12_frame_not_allowed",
             "CifModel.C12_scanner_report_in_element_position", "CifModel.C12_null_loop", "CifModel.C12_invalid_itemname",
             "CifModel.C12_invalid_framecode", "CifModel.C12_dup_framecode", "CifModel.C12_invalid_blockcode",
-            "CifModel.C12_dup_blockcode"]
+            "CifModel.C12_dup_blockcode",
+            # scanner-level classes (Props/C12Scan.lean, group gD)
+            "CifModel.C12_disallowed_initial_char", "CifModel.C12_missing_space", "CifModel.C12_missing_space_value",
+            "CifModel.C12_missing_space_glued_bracket", "CifModel.C12_missing_endquote", "CifModel.C12_unclosed_text",
+            "CifModel.C12_unclosed_triple", "CifModel.C12_overlength_lines", "CifModel.C12_overlength_sep",
+            "CifModel.C12_overlength_text", "CifModel.C12_overlength_triple", "CifModel.C12_defective_unit",
+            "CifModel.C12_defective_unit_multiline", "CifModel.C12_disallowed_char", "CifModel.C12_invalid_char_trail",
+            "CifModel.C12_invalid_char_lead", "CifModel.C12_die_is_first"]
 GEN = ["ErrCodes", "CharClass", "ParseConsts"]
 FAMILIES = ["defect"]
 TRUSTED_BASE = [
